@@ -847,6 +847,11 @@ type c07Gen struct {
 	rareW    int
 	fuel     int
 	lastRule string
+	// steering towards one alternative of a terminal-only group (c07alts.go)
+	target *g4Term
+	choice int
+	dist   map[*g4Term]int
+	hit    bool
 }
 
 func (c *c07Gen) lexSample(name string) string {
@@ -1064,6 +1069,15 @@ var c07Fixed = []string{
 }
 
 func (c07Suite) Gen(rng *Rng, tier string, w *bufio.Writer, stats *Stats) {
+	if tier == "alts" {
+		// the generator's table of keyword / operator alternatives, one per line (compared with the table Lean computes from Grammar.lean)
+		if g, err := loadG4(); err == nil {
+			for _, a := range g.keywordAlternatives() {
+				fmt.Fprintf(w, "%s\n", a.key())
+			}
+		}
+		return
+	}
 	thorough := tier == "thorough"
 	n := 0
 	emit := func(tag, q string) {
@@ -1123,6 +1137,17 @@ func (c07Suite) Gen(rng *Rng, tier string, w *bufio.Writer, stats *Stats) {
 	for _, s := range numericCases(rng, npos) {
 		emit("num", s)
 	}
+	// (d) empty maps / lists / strings in every expression position; (e) dangling sigils and operators without operands
+	for _, s := range slotCases(rng, emptyLits, exprPositions, 0) {
+		emit("empty", s)
+	}
+	ndang := 6
+	if thorough {
+		ndang = 0
+	}
+	for _, s := range slotCases(rng, danglingBits, exprPositions, ndang) {
+		emit("dangling", s)
+	}
 	// (c) multi-byte / invalid UTF-8 payloads inside every unsupported construct and error path
 	npay := 2
 	if thorough {
@@ -1137,6 +1162,44 @@ func (c07Suite) Gen(rng *Rng, tier string, w *bufio.Writer, stats *Stats) {
 	if err != nil {
 		stats.Inc("grammar_load_failed")
 		return
+	}
+	// every alternative of every terminal-only group of the grammar (ASC | ASCENDING | DESC | DESCENDING, dash / arrow variants, …)
+	alts := g.keywordAlternatives()
+	perAlt := 2
+	if thorough {
+		perAlt = 8
+	}
+	hitAll := true
+	var lastTerm *g4Term
+	var dist map[*g4Term]int
+	for _, a := range alts {
+		if a.term != lastTerm {
+			// prefer a derivation that stays inside the represented sub-grammar (no unsupported rule on the way)
+			lastTerm, dist = a.term, g.distances(a.term, true)
+			if _, ok := dist[g.rules["oC_Cypher"]]; !ok {
+				dist = g.distances(a.term, false)
+			}
+		}
+		got := 0
+		for k := 0; k < perAlt*3 && got < perAlt; k++ {
+			c := &c07Gen{g: g, rng: rng, rareW: 0, fuel: 12 + rng.Intn(40), target: a.term, choice: a.alt, dist: dist}
+			var b strings.Builder
+			c.genToward(g.rules["oC_Cypher"], 30, &b)
+			s := strings.TrimSpace(b.String())
+			if !c.hit || s == "" {
+				continue
+			}
+			got++
+			emit("alt:"+a.key(), s)
+		}
+		if got == 0 {
+			hitAll = false
+			stats.Inc("alt_unreached:" + a.key())
+		}
+	}
+	stats.Counters["alt_targets"] = int64(len(alts))
+	if hitAll && len(alts) > 0 {
+		stats.Inc("alt_every_alternative_generated")
 	}
 	ngen := 1500
 	if thorough {
